@@ -111,6 +111,9 @@ def run(tier: str, seed: int) -> int:
         m["runs"] += o["runs"]
     obs = list(merged.values())
     verdicts = chk.judge("Judge_C09", obs, nshards=len(obs))
+    from .. import corrupt as _corrupt
+
+    chk.binding_selftest("Judge_C09", obs, verdicts, _corrupt.c09)
     by_id = {}
     for o in obs:
         by_id[o["id"]] = {"docs": [doc_dict(d) for d in o["docs"]], "runs": len(o["runs"])}
